@@ -201,4 +201,26 @@ theorem connRun_seqs (secs : List (Int × Bool)) : ∀ s : Conn,
     rw [ih (nextMsgSeq s c f).1]
     simp [nextMsgSeq]
 
+/-- `a<<32 | b` of the translated code (`orNonneg`) on naturals. -/
+theorem orNonneg_shift (a b : Nat) :
+    Facts.C08.orNonneg ((a : Int) * 2 ^ 32) (b : Int) = ((a <<< 32 ||| b : Nat) : Int) := by
+  unfold Facts.C08.orNonneg
+  have h : ((a : Int) * 2 ^ 32).toNat = a * 2 ^ 32 := by omega
+  rw [h, Int.toNat_natCast, Nat.shiftLeft_eq]
+  rfl
+
+/-- The definition regenerated from the Go source of `proto.newMessageID` is the model's. -/
+theorem newMessageIDT_eq (n y : Nat) :
+    Facts.C08.newMessageIDT (n : Int) (y : Int) = (newMessageID n y : Int) := by
+  have e1 : Int.tdiv (n : Int) 1000000000 = ((n / 1000000000 : Nat) : Int) := by
+    rw [Int.tdiv_eq_ediv_of_nonneg (by omega)]; omega
+  have e2 : Int.tmod (n : Int) 1000000000 = ((n % 1000000000 : Nat) : Int) := by
+    rw [Int.tmod_eq_emod_of_nonneg (by omega)]; omega
+  have e4 : ((n % 1000000000 : Nat) : Int) - ((n % 1000000000 : Nat) : Int) % 2 ^ 2 + (y : Int)
+      = ((n % 1000000000 - n % 1000000000 % 4 + y : Nat) : Int) := by omega
+  show Facts.C08.orNonneg (Int.tdiv (n : Int) 1000000000 * 2 ^ 32)
+      (Int.tmod (n : Int) 1000000000 - Int.tmod (n : Int) 1000000000 % 2 ^ 2 + (y : Int)) = _
+  rw [e1, e2, e4, orNonneg_shift]
+  rfl
+
 end TdModel.C08
